@@ -42,6 +42,7 @@ type Thread struct {
 	what    string // description of pending point (debug)
 	waitObj uintptr
 	killed     bool
+	born       int // scheduling step at which the thread was created
 	wasEnabled bool  // enabled at the previous scheduling step
 	stamp      int64 // step at which the thread last became enabled
 }
@@ -102,6 +103,7 @@ type Exec struct {
 	aborter  *Thread
 	unmapped map[*byte]bool
 	unmappedLen map[uintptr]int
+	unmappedStep map[uintptr]int
 	fdOwner  map[int]int
 	files    []trackedFile
 }
@@ -159,7 +161,7 @@ func GoNamed(name string, f func()) *Thread {
 	if x.aborting {
 		return nil
 	}
-	t := &Thread{ID: len(x.threads), Name: name, fn: f, wake: make(chan struct{}, 1), exited: make(chan struct{}), idleTo: -1}
+	t := &Thread{ID: len(x.threads), Name: name, fn: f, wake: make(chan struct{}, 1), exited: make(chan struct{}), idleTo: -1, born: x.nsteps}
 	if x.cur != nil {
 		t.Proc = x.cur.Proc
 	}
@@ -202,9 +204,15 @@ func (x *Exec) spawn(t *Thread) {
 					sig := "panic"
 					stack := trimStack(string(debug.Stack()))
 					if ae, ok := r.(interface{ Addr() uintptr }); ok {
-						if x.inUnmapped(ae.Addr()) {
-							// root cause: a thread touched memory the code under test had already unmapped
-							sig = "known:use-after-unmap@" + faultGroup(faultSite(stack))
+						if at, ok := x.unmappedAt(ae.Addr()); ok {
+							if t.born > at {
+								// a call that STARTED after the unmap (the thread did not even exist before): every later
+								// call must fail with an error instead
+								sig = "later-call-touches-unmapped@" + faultGroup(faultSite(stack))
+							} else {
+								// root cause: a thread was inside an operation when the teardown unmapped the memory
+								sig = "known:use-after-unmap@" + faultGroup(faultSite(stack))
+							}
 						}
 					}
 					x.setFail(&Failure{Kind: "panic", Sig: sig, Msg: fmt.Sprintf("panic in thread %d(%s): %v", t.ID, t.Name, r), Stack: stack})
@@ -257,13 +265,14 @@ func faultGroup(fn string) string {
 	return fn
 }
 
-func (x *Exec) inUnmapped(a uintptr) bool {
+// unmappedAt returns the scheduling step at which the region containing a was unmapped by the code under test.
+func (x *Exec) unmappedAt(a uintptr) (int, bool) {
 	for base, n := range x.unmappedLen {
 		if a >= base && a < base+uintptr(n) {
-			return true
+			return x.unmappedStep[base], true
 		}
 	}
-	return false
+	return 0, false
 }
 
 func trimStack(s string) string {
